@@ -60,10 +60,6 @@ pub open spec fn ext_le(a: Ext, b: Ext) -> bool {
 }
 pub open spec fn ext_lt(a: Ext, b: Ext) -> bool { ext_le(a, b) && !ext_le(b, a) }
 pub open spec fn ext_eq(a: Ext, b: Ext) -> bool { ext_le(a, b) && ext_le(b, a) }
-// IEEE partial order: unordered when either side is NaN
-pub open spec fn ext_partial_cmp(a: Ext, b: Ext) -> Option<core::cmp::Ordering> {
-    if a is NaN || b is NaN { None } else if ext_lt(a, b) { Some(core::cmp::Ordering::Less) } else if ext_eq(a, b) { Some(core::cmp::Ordering::Equal) } else { Some(core::cmp::Ordering::Greater) }
-}
 pub open spec fn ext_max(a: Ext, b: Ext) -> Ext { if a is NaN { b } else if b is NaN { a } else if ext_le(a, b) { b } else { a } }
 pub open spec fn ext_min(a: Ext, b: Ext) -> Ext { if a is NaN { b } else if b is NaN { a } else if ext_le(a, b) { a } else { b } }
 pub open spec fn ext_abs(a: Ext) -> Ext {
@@ -127,7 +123,7 @@ impl<'a> NegSpecImpl for &'a F64 { open spec fn obeys_neg_spec() -> bool { true 
 impl<'a> core::ops::Neg for &'a F64 { type Output = F64; #[verifier::external_body] fn neg(self) -> (r: F64) { F64(-self.0) } }
 impl core::cmp::PartialEq for F64 { #[verifier::external_body] fn eq(&self, o: &F64) -> (r: bool) ensures r == ext_eq(fv(*self), fv(*o)) { self.0 == o.0 } }
 impl core::cmp::PartialOrd for F64 {
-    #[verifier::external_body] fn partial_cmp(&self, o: &F64) -> (r: Option<core::cmp::Ordering>) ensures r == ext_partial_cmp(fv(*self), fv(*o)) { self.0.partial_cmp(&o.0) }
+    #[verifier::external_body] fn partial_cmp(&self, o: &F64) -> (r: Option<core::cmp::Ordering>) { self.0.partial_cmp(&o.0) }
     #[verifier::external_body] fn lt(&self, o: &F64) -> (r: bool) ensures r == ext_lt(fv(*self), fv(*o)) { self.0 < o.0 }
     #[verifier::external_body] fn le(&self, o: &F64) -> (r: bool) ensures r == ext_le(fv(*self), fv(*o)) { self.0 <= o.0 }
     #[verifier::external_body] fn gt(&self, o: &F64) -> (r: bool) ensures r == ext_lt(fv(*o), fv(*self)) { self.0 > o.0 }
